@@ -246,10 +246,26 @@ def sparse_phase(run, stats):
             continue      # collinear
         zs = [round(run.rng.uniform(-5, 25), 3) for _ in pts]
         data = np.array([[p[0], p[1], z] for p, z in zip(pts, zs)])
-        hm = SparseHeightMap(data)
+        via = "array"
+        if it % 2 == 1:
+            # the same data through a CSV / TSV file (numbers written so that they read back exactly; no header line; the
+            # first row is whatever point sorts first -- usually a negative x)
+            via = run.rng.choice(["csv", "tsv"])
+            sep = "," if via == "csv" else "\t"
+            path = os.path.join(scratch_dir("c19files"), "points_%d.%s" % (it, via))
+            with open(path, "w") as fcsv:
+                for row in data.tolist():
+                    cells = [repr(float(v)) for v in row]
+                    if run.rng.random() < 0.3:
+                        cells = [("+" + c) if not c.startswith("-") and run.rng.random() < 0.5 else c for c in cells]
+                    fcsv.write(sep.join(cells) + "\n")
+            hm = SparseHeightMap.from_path(path)
+            os.remove(path)
+        else:
+            hm = SparseHeightMap(data)
         scale = run.rng.choice([1.0, 2.5, 0.125, 30.0])
         hm.set_scale(scale)
-        rep = dict(kind="sparse", points=data.tolist(), scale=scale)
+        rep = dict(kind="sparse", points=data.tolist(), scale=scale, loaded_via=via)
         stats["point_sets"] += 1
         run.count(("sparse", m, grid, it), True)
         lo, hi = min(zs), max(zs)
